@@ -221,7 +221,7 @@ def _num_strings():
 
 @st.composite
 def set_steps(draw):
-    kind = draw(st.sampled_from(["valid", "valid", "invalid", "invalid", "custom", "free"]))
+    kind = draw(st.sampled_from(["valid", "valid", "invalid", "invalid", "custom", "free", "retype", "retype"]))
     if kind == "valid":
         k = draw(st.sampled_from(["log_level", "output_format", "max_retries", "timeout", "app_name", "greeting", "version"]))
         v = draw({"log_level": st.sampled_from(LEVELS), "output_format": st.sampled_from(FORMATS),
@@ -235,6 +235,11 @@ def set_steps(draw):
                   "max_retries": st.one_of(st.integers(-10**6, -1).map(str), st.sampled_from(["2.5", "many", "", "1.0", "true"])),
                   "timeout": st.one_of(st.sampled_from(["0", "0.0", "-3", "-0.5", "soon", "", "false", "true"]), st.floats(max_value=0, min_value=-1e9).map(repr)),
                   "app_name": st.sampled_from([" ", "", "\t", "   ", "12", "true"])}[k])
+    elif kind == "retype":
+        # few keys x values that compare equal across types (True == 1 == 1.0, 30 == 30.0 ...): a later set of the
+        # "same" value in another type must still be stored and returned as given (defaults: timeout 30, max_retries 3)
+        k = draw(st.sampled_from(["team", "retry_policy", "timeout", "timeout"]))
+        v = draw(st.sampled_from(["30", "30.0", "3", "3.0", "1", "1.0"] if k == "timeout" else ["true", "1", "1.0", "false", "0", "0.0", "3", "3.0"]))
     elif kind == "custom":
         k = draw(st.sampled_from(CUSTOM_KEYS))
         v = draw(st.one_of(_num_strings(), st.sampled_from(["true", "False", "TRUE", "LOUD", "-x", "null", "~", "yes", "2024-01-01", "0x1F", "1:30", "[a, b]", "{a: 1}", "a: b", "# c", "'q'", "*ref", "&a", "!tag", "@at", "`t`", "%p", "|", ">", "- item", "? k", "", " lead", "trail ", "é✓", "line1\nline2", "tab\there", "\u2028sep", "\x85nel"]), _free_text))
